@@ -4,6 +4,7 @@ import (
 	"fmt"
 	"go/token"
 	"go/types"
+	"sort"
 	"strings"
 
 	"gvc/internal/smt"
@@ -515,6 +516,20 @@ func (e *Engine) ResolveType(s string) (types.Type, error) {
 			}
 			return t, nil
 		}
+		// a type expression over imports of another file of the same package
+		// (ghost state declared once for functions of several files)
+		var keys []string
+		for k, fn := range e.Funcs {
+			if fn.Pkg == e.cur.Pkg && fn.Decl != nil && fn.Decl.Body != nil {
+				keys = append(keys, k)
+			}
+		}
+		sort.Strings(keys)
+		for _, k := range keys {
+			if tv2, err2 := types.Eval(e.Fset, e.cur.Pkg, e.Funcs[k].Decl.Body.Lbrace, s); err2 == nil {
+				return tv2.Type, nil
+			}
+		}
 		return nil, err
 	}
 	return tv.Type, nil
@@ -624,6 +639,7 @@ func registerBuiltinSpecs(e *Engine) {
 	e.Specs["isNotExist"] = uf("isNotExist", smt.Bool, false)
 	e.Specs["isDerivedFile"] = uf("isDerivedFile", smt.Bool, false)
 	e.Specs["joinPath"] = uf("joinPath", smt.V, false)
+	e.Specs["baseName"] = uf("baseName", smt.V, false) // last element of a path (filepath.Split's second result)
 	e.Specs["strJoin"] = uf("strJoin", smt.V, false)
 	e.Specs["mayRename"] = uf("mayRename", smt.Bool, false)
 	// overwrite(c, o, d): content c after writing d at offset o
@@ -864,6 +880,12 @@ func registerBuiltinSpecs(e *Engine) {
 				continue
 			}
 			if tn, ok := pk.Scope().Lookup(id.Name).(*types.TypeName); ok {
+				return Val{v.T, types.NewPointer(tn.Type())}, nil
+			}
+		}
+		// a contract of an external function (ast.Walk) naming a type of the package under verification
+		if e.cur != nil && e.cur.Pkg != nil {
+			if tn, ok := e.cur.Pkg.Scope().Lookup(id.Name).(*types.TypeName); ok {
 				return Val{v.T, types.NewPointer(tn.Type())}, nil
 			}
 		}
